@@ -3,6 +3,7 @@
   partitions  C20  work of conjunctive / disjunctive_partition on shared conjunctions
   sorts       C03  declared sorts vs built-in sorts; parser_reset C08/C09/C14/C15"""
 import random
+from pysmt.typing import FunctionType
 import warnings
 
 from pysmt.typing import BOOL, INT, REAL, BVType, ArrayType, STRING, Type
@@ -230,8 +231,32 @@ def sorts_check(tier, seed):
                 if made != (nn == kk):
                     viol.append({"key": "sort-instance-of-the-wrong-arity", "declared": nn, "given": kk, "accepted": made})
                     break
+    # composite sorts: equal exactly when every component is, never across families (compared through the classes' own __eq__:
+    # objects made directly, not through the interning tables)
+    from pysmt.typing import _FunctionType, _ArrayType, _BVType
+    base = [INT, REAL, BOOL]
+    comps = [("function", (r_, (p_,))) for r_ in base for p_ in base] + [("function", (INT, (INT, INT)))] + \
+            [("array", (i_, e_)) for i_ in base for e_ in base] + [("bv", (w_,)) for w_ in (1, 2, 8)]
+    mk = {"function": lambda c: _FunctionType(c[0], list(c[1])), "array": lambda c: _ArrayType(c[0], c[1]), "bv": lambda c: _BVType(c[0])}
+    for fa, ca in comps:
+        for fb, cb in comps:
+            n += 1
+            x_, y_ = mk[fa](ca), mk[fb](cb)
+            same = (fa, ca) == (fb, cb)
+            if (x_ == y_) != same or (same and hash(x_) != hash(y_)):
+                viol.append({"key": "composite-sorts", "left": str(x_), "right": str(y_), "equal": bool(x_ == y_), "expected": same})
+                break
+        if viol:
+            break
+    if not viol:
+        f1, f2 = m.Symbol("fs_int", FunctionType(INT, [INT])), m.Symbol("fs_real", FunctionType(REAL, [INT]))
+        try:
+            m.Equals(f1, f2)
+            viol.append({"key": "function-symbols-of-different-sorts-equated", "left": str(f1.symbol_type()), "right": str(f2.symbol_type())})
+        except Exception:
+            pass
     return {"name": "sorts", "bounded": True, "evaluations": n, "distinct_nontrivial": n, "exhaustive": True,
-            "rule": "sorts declared under the name of each built-in sort vs the built-in sort (equality, use in Equals); the built-in sorts pairwise",
+            "rule": "sorts declared under the name of each built-in sort vs the built-in sort (equality, use in Equals); the built-in sorts pairwise; function / array / bit-vector sorts over Int, Real, Bool pairwise (equal exactly when all components are)",
             "samples": ["Type('Int') vs INT"], "violations": viol}
 
 
@@ -449,8 +474,21 @@ def factory_check(tier, seed):
                              "declared": [str(x) for x in sup]})
             elif req is not None and qe.logic != get_closer_logic(sup, req if not isinstance(req, str) else QF_BOOL):
                 viol.append({"key": "not-the-closest-logic", "name": name, "requested": str(req), "got": str(qe.logic)})
+    # which registered solvers are offered for a logic: exactly those one of whose declared logics covers it (theory and quantifiers)
+    from pysmt.logics import LOGICS as ALL_LOGICS, QF_LIA, QF_UFLIA, LIA, UFLIRA, QF_BV
+    regs = {"qf-only": [QF_LIA, QF_UFLIA], "quantified": [LIA, UFLIRA], "bits": [QF_BV]}
+    for nm, lg in regs.items():
+        env.factory.add_generic_solver(nm, ["/bin/false"], list(lg))
+    for req in ALL_LOGICS:
+        n += 1
+        offered = set(env.factory.all_solvers(logic=req)) & set(regs)
+        want = {nm for nm, lg in regs.items() if any(req <= l for l in lg)}
+        if offered != want:
+            viol.append({"key": "solvers-offered-for-a-logic", "logic": str(req), "offered": sorted(offered), "covering": sorted(want),
+                         "registered": {k: [str(x) for x in v] for k, v in regs.items()}})
+            break
     return {"name": "factory", "bounded": True, "evaluations": n, "distinct_nontrivial": n, "exhaustive": True,
-            "rule": "the two in-process quantifier eliminators created by name with QF_BOOL / BOOL / 'QF_BOOL' / no logic",
+            "rule": "the two in-process quantifier eliminators created by name with QF_BOOL / BOOL / 'QF_BOOL' / no logic; three registered text-interface solvers (quantifier-free only, quantified, bit-vectors) offered for each named logic",
             "samples": ["QuantifierEliminator(name='shannon', logic=QF_BOOL)"], "violations": viol}
 
 
